@@ -3,10 +3,11 @@ from .core import BASE_TRUST
 META = {
     "category": "proof",
     "text": "Lean 4 theorems at the character level, for all tables (any rows/columns, any cell text, NULL distinguished): "
-            "CSV/TSV - writer (go-text csv.Writer quoting rule + encodeCSV) and reader state machine (csv.Reader + loadViewFromCSVFile) "
-            "proved to round-trip to the canonical table (NULL = empty where one spelling) for the writer that quotes CR/LF, and for the pinned writer "
-            "under 'no cell contains CR/LF'; rectangularity of the loaded view for ALL byte strings under every loader option; no cell shifts its "
-            "neighbours; detected line break = written line break; counter-witnesses for the pinned code. "
+            "CSV/TSV - writer (go-text csv.Writer quoting rule + encodeCSV, which since /repo 3f80460 quotes fields containing CR/LF) and reader state "
+            "machine (csv.Reader + loadViewFromCSVFile): csv_roundtrip, the FULL round trip to the canonical table (NULL = empty where one spelling) for "
+            "every cell text, is the theorem that applies to the code (exceptions, both known findings with proved counter-witnesses: a single-column "
+            "record that is one empty field, and CR as ending line break); rectangularity of the loaded view for ALL byte strings under every loader "
+            "option; no cell shifts its neighbours; detected line break = written line break. "
             "LTSV - writer/reader model; refuse_or_spell (the writer accepts exactly the permitted labels/values), round trip for >= 2 distinct labels and no ':' "
             "in values (the pinned go-text reader drops ':' and skips one-field lines: counter-witnesses proved), rectangularity for all inputs. "
             "Fixed-length with explicit delimiter positions - refuse_or_spell (error iff positions do not increase or a text exceeds its column), round trip "
@@ -30,8 +31,11 @@ def run(run):
         "behaviour for UTF-8, UTF-8 with BOM, UTF-16 (BE/LE, with and without BOM) and Shift_JIS by the write-then-read law",
         "the delimiter is none of '\"', CR, LF (DelimOK); cell texts of Integer/Float/Boolean/Datetime values are what ConvertFieldContents returns",
         "CSV reader: all reader errors are one error value (messages are not compared); Go's rune look-ahead after CR is modelled by a pending-CR state",
-        "the op line tells the Lean writer model whether the code under test quotes fields containing CR/LF (probed on the real writer); "
-        "csv_roundtrip is the theorem for the quoting writer, csv_roundtrip_partial the one for the pinned writer",
+        "csv_roundtrip (quoteLB = true) is the theorem cited for the code: the model writer is run with that rule, the real writer is probed on every run "
+        "(a field containing CR/LF must come out quoted); a regression shows as law roundtrip:csv:linebreak_in_cell (probe + corpus witness) and as "
+        "model/implementation differences in the enc stream",
+        "a failed write-then-read law is attributed to a cause only if repairing exactly that cause in the input repairs the round trip on the real code "
+        "(counterfactual re-runs); what no known cause explains is reported as roundtrip:<fmt>:other",
     ]
     run.obligations_for(["Csvq.Props.C02"])
     run.stream("c02", 10000 if q else 150000, timeout=3000)
@@ -40,7 +44,8 @@ def run(run):
             run.stream("c02", 100000, seed_offset=k, timeout=3000)
     return run.finish(
         level="proof",
-        rule="tables of 0-50 rows x 1-6 columns; cells NULL / strings / integers / floats / booleans / ternaries / datetimes; string texts composed from "
+        rule="a deterministic corpus first (one minimal witness per known finding, one per defect fixed in /repo that must now pass), then generated: "
+             "tables of 0-50 rows x 1-6 columns; cells NULL / strings / integers / floats / booleans / ternaries / datetimes; string texts composed from "
              "delimiters (, ; | TAB blank :), quotation marks, backslashes, CR, LF, CRLF, leading/trailing blanks, non-ASCII (Latin-1, CJK, half-width kana, "
              "astral, NBSP, U+3000, U+2028, U+0085, U+FEFF, combining, zero-width), control characters, empty; header names simple or from the same "
              "repertoire; all six formats x LF/CRLF/CR x enclose-all x without-header x strip-ending-line-break x without-null x allow-uneven-fields x "
